@@ -47,3 +47,28 @@ package vgirpc
 //@   nopanic(index)
 //@   loop 0 invariant 0 <= i && i <= len(text) && xat(text, i) && (inQuotes <==> xq(text, i))
 //@   at call append#1 assert [cut] 0 <= i && i < len(text) && xat(text, i) && text[i] == delimiter && !xq(text, i)
+
+// ---- unquoting and decoding of an XFCC value ----
+//
+// The one escape of the header grammar inside a quoted value is \" : unescapeQuoted replaces
+// exactly that pair by a double quote and returns the result (repaired defect: it removed EVERY
+// backslash, so the Subject's own RFC 4514 escapes were gone before extractCN split it on
+// unescaped commas — O=Foo\, CN=admin,CN=eve authenticated its holder as admin).
+//
+//@ func unescapeQuoted
+//@   property C24
+//@   pathvar unquoted string
+//@   at call strings.ReplaceAll assert [onlyescapedquote] arg0 == text && arg1 == "\\\"" && arg2 == "\""
+//@   at call strings.ReplaceAll setflag unquoted result
+//@   ensures [local_returnsit] result == unquoted
+//
+// ParseXfcc decodes Cert, URI and By with percent-decoding only (url.PathUnescape): form
+// decoding (url.QueryUnescape), which turns a literal '+' into a space, is never called
+// (repaired defect); a quoted value is unquoted through unescapeQuoted, given exactly the text
+// between its first and last character.
+//
+//@ func ParseXfcc
+//@   property C24
+//@   at call url.QueryUnescape assert [hint_noformdecoding] false
+//@   at call url.PathUnescape assert [decodesvalue] arg0 == value
+//@   at call unescapeQuoted assert [inner] len(value) >= 2 && value[0] == 34 && value[len(value)-1] == 34 && arg0 == value[1:len(value)-1]
